@@ -1009,6 +1009,8 @@ CB5:
         jx := 1;
 CB6:
         while (jx <= Len(Ups(to.n))) {
+cb_sib_ld:
+          \* source_talkbacks.<jx>.load()
           if (S(to).tbs[jx] = NoRef) { Panic(); } else {
             call Deliver("S", S(to).tbs[jx], m);
           };
@@ -3399,7 +3401,7 @@ DDisp(self) == /\ pc[self] = "DDisp"
                                                                                                                                                                                                                                      sx, 
                                                                                                                                                                                                                                      ch >>
                                                                                                                                                                                                      ELSE /\ Assert(FALSE, 
-                                                                                                                                                                                                                    "Failure of assertion at line 1234, column 5.")
+                                                                                                                                                                                                                    "Failure of assertion at line 1236, column 5.")
                                                                                                                                                                                                           /\ pc' = [pc EXCEPT ![self] = "Ret"]
                                                                                                                                                                                                           /\ UNCHANGED << st, 
                                                                                                                                                                                                                           tasks, 
@@ -5577,42 +5579,47 @@ CB5(self) == /\ pc[self] = "CB5"
 
 CB6(self) == /\ pc[self] = "CB6"
              /\ IF jx[self] <= Len(Ups(to[self].n))
-                   THEN /\ IF S(to[self]).tbs[jx[self]] = NoRef
-                              THEN /\ obs' = LogO(obs \o [q \in 1..OpenCount(obs, 1, 0) |-> RetEv(ThOf(self))],
-                                                  Ev("panic", ThOf(self), "", "", "", 0))
-                                   /\ panicked' = TRUE
-                                   /\ pc' = [pc EXCEPT ![self] = "Halt"]
-                                   /\ UNCHANGED << stack, fr, to, m, lg, sx, 
-                                                   jx, ch, lv, snap >>
-                              ELSE /\ /\ fr' = [fr EXCEPT ![self] = "S"]
-                                      /\ m' = [m EXCEPT ![self] = m[self]]
-                                      /\ stack' = [stack EXCEPT ![self] = << [ procedure |->  "Deliver",
-                                                                               pc        |->  "CB7",
-                                                                               lg        |->  lg[self],
-                                                                               sx        |->  sx[self],
-                                                                               jx        |->  jx[self],
-                                                                               ch        |->  ch[self],
-                                                                               lv        |->  lv[self],
-                                                                               snap      |->  snap[self],
-                                                                               fr        |->  fr[self],
-                                                                               to        |->  to[self],
-                                                                               m         |->  m[self] ] >>
-                                                                           \o stack[self]]
-                                      /\ to' = [to EXCEPT ![self] = S(to[self]).tbs[jx[self]]]
-                                   /\ lg' = [lg EXCEPT ![self] = FALSE]
-                                   /\ sx' = [sx EXCEPT ![self] = 0]
-                                   /\ jx' = [jx EXCEPT ![self] = 0]
-                                   /\ ch' = [ch EXCEPT ![self] = ""]
-                                   /\ lv' = [lv EXCEPT ![self] = 0]
-                                   /\ snap' = [snap EXCEPT ![self] = <<>>]
-                                   /\ pc' = [pc EXCEPT ![self] = "DStart"]
-                                   /\ UNCHANGED << obs, panicked >>
+                   THEN /\ pc' = [pc EXCEPT ![self] = "cb_sib_ld"]
                    ELSE /\ pc' = [pc EXCEPT ![self] = "Ret"]
-                        /\ UNCHANGED << obs, panicked, stack, fr, to, m, lg, 
-                                        sx, jx, ch, lv, snap >>
-             /\ UNCHANGED << ci, st, nd, sk, pi, fi, tasks, now, script, ntop, 
-                             started, mon, done, ka, ca, gx, ex, nx, fx, bx, 
-                             bc, tx, ta, tc, ft, act, sj, tk >>
+             /\ UNCHANGED << ci, st, nd, sk, pi, fi, tasks, now, obs, script, 
+                             ntop, panicked, started, mon, done, stack, fr, to, 
+                             m, lg, sx, jx, ch, lv, snap, ka, ca, gx, ex, nx, 
+                             fx, bx, bc, tx, ta, tc, ft, act, sj, tk >>
+
+cb_sib_ld(self) == /\ pc[self] = "cb_sib_ld"
+                   /\ IF S(to[self]).tbs[jx[self]] = NoRef
+                         THEN /\ obs' = LogO(obs \o [q \in 1..OpenCount(obs, 1, 0) |-> RetEv(ThOf(self))],
+                                             Ev("panic", ThOf(self), "", "", "", 0))
+                              /\ panicked' = TRUE
+                              /\ pc' = [pc EXCEPT ![self] = "Halt"]
+                              /\ UNCHANGED << stack, fr, to, m, lg, sx, jx, ch, 
+                                              lv, snap >>
+                         ELSE /\ /\ fr' = [fr EXCEPT ![self] = "S"]
+                                 /\ m' = [m EXCEPT ![self] = m[self]]
+                                 /\ stack' = [stack EXCEPT ![self] = << [ procedure |->  "Deliver",
+                                                                          pc        |->  "CB7",
+                                                                          lg        |->  lg[self],
+                                                                          sx        |->  sx[self],
+                                                                          jx        |->  jx[self],
+                                                                          ch        |->  ch[self],
+                                                                          lv        |->  lv[self],
+                                                                          snap      |->  snap[self],
+                                                                          fr        |->  fr[self],
+                                                                          to        |->  to[self],
+                                                                          m         |->  m[self] ] >>
+                                                                      \o stack[self]]
+                                 /\ to' = [to EXCEPT ![self] = S(to[self]).tbs[jx[self]]]
+                              /\ lg' = [lg EXCEPT ![self] = FALSE]
+                              /\ sx' = [sx EXCEPT ![self] = 0]
+                              /\ jx' = [jx EXCEPT ![self] = 0]
+                              /\ ch' = [ch EXCEPT ![self] = ""]
+                              /\ lv' = [lv EXCEPT ![self] = 0]
+                              /\ snap' = [snap EXCEPT ![self] = <<>>]
+                              /\ pc' = [pc EXCEPT ![self] = "DStart"]
+                              /\ UNCHANGED << obs, panicked >>
+                   /\ UNCHANGED << ci, st, nd, sk, pi, fi, tasks, now, script, 
+                                   ntop, started, mon, done, ka, ca, gx, ex, 
+                                   nx, fx, bx, bc, tx, ta, tc, ft, act, sj, tk >>
 
 CB7(self) == /\ pc[self] = "CB7"
              /\ jx' = [jx EXCEPT ![self] = jx[self] + 1]
@@ -6294,15 +6301,16 @@ Deliver(self) == DStart(self) \/ DDisp(self) \/ K1(self) \/ K1a(self)
                     \/ cb_ndata_ld(self) \/ cb_emit(self)
                     \/ cb_emit_ld(self) \/ cb_data(self) \/ CB4(self)
                     \/ cb_end_fs(self) \/ cb_term(self) \/ CB5(self)
-                    \/ CB6(self) \/ CB7(self) \/ FL1(self) \/ FL2(self)
-                    \/ FL3(self) \/ FL4(self) \/ FL5a(self) \/ FL5(self)
-                    \/ FL6(self) \/ FL7(self) \/ FL8(self) \/ FL9(self)
-                    \/ FL10(self) \/ FL11(self) \/ FL12(self) \/ FL13(self)
-                    \/ FL14(self) \/ FL16(self) \/ FL15(self) \/ FL17(self)
-                    \/ FL18(self) \/ FL19(self) \/ SH1(self) \/ SH2(self)
-                    \/ SH3(self) \/ SH4(self) \/ SH5(self) \/ SH6(self)
-                    \/ SH7(self) \/ SH8(self) \/ SH9(self) \/ SH10(self)
-                    \/ IV1(self) \/ IV2(self) \/ Ret(self) \/ Halt(self)
+                    \/ CB6(self) \/ cb_sib_ld(self) \/ CB7(self)
+                    \/ FL1(self) \/ FL2(self) \/ FL3(self) \/ FL4(self)
+                    \/ FL5a(self) \/ FL5(self) \/ FL6(self) \/ FL7(self)
+                    \/ FL8(self) \/ FL9(self) \/ FL10(self) \/ FL11(self)
+                    \/ FL12(self) \/ FL13(self) \/ FL14(self) \/ FL16(self)
+                    \/ FL15(self) \/ FL17(self) \/ FL18(self) \/ FL19(self)
+                    \/ SH1(self) \/ SH2(self) \/ SH3(self) \/ SH4(self)
+                    \/ SH5(self) \/ SH6(self) \/ SH7(self) \/ SH8(self)
+                    \/ SH9(self) \/ SH10(self) \/ IV1(self) \/ IV2(self)
+                    \/ Ret(self) \/ Halt(self)
 
 SA0(self) == /\ pc[self] = "SA0"
              /\ IF ca[self] = "pull"
@@ -7252,7 +7260,7 @@ AccessLabels == {"th_start", "K1",
                  "tk_taken_fu", "tk_end_ld", "tk_end_st", "tk_up_ld", "tk_src_end_st",
                  "mg_tb_clr", "mg_end_fa", "mg_ended_st", "mg_sib_ld", "mg_tk_ended_st", "MG8",
                  "cb_vals_ld", "cb_rcu_ld", "cb_rcu_cas", "cb_ndata_fs", "cb_ndata_ld", "cb_emit_ld",
-                 "cb_end_fs"}
+                 "cb_end_fs", "cb_sib_ld"}
 \* the step thread t is about to take is a shared-state access (the exit test of a loop is not)
 AccessStep(t) == /\ pc[t] \in AccessLabels
                  /\ (pc[t] \in {"mg_sib_ld", "MG8"} => jx[t] <= Len(Ups(to[t].n)))
